@@ -31,7 +31,10 @@ m = {
                  'kind_free_text': 'Lean 4 theorems about generated (translator) and hand-written models; tie to /repo by regeneration on every run and by differential execution of model vs implementation; oracle = executable Spec'}],
     'checks': checks,
     'not_applicable': na,
-    'notes': 'exit 0 pass / 1 VIOLATION / 2 infrastructure error. See DESIGN.md.',
+    'notes': ('exit 0 pass / 1 VIOLATION / 2 infrastructure error. See DESIGN.md (section 0 first). Genuine defects repaired by '
+              'unguarded fix: commits in /repo are listed as fixed: entries in known_findings.txt (F1-F14); open known findings: C20 '
+              'xml-whitespace-normalisation, C05 F10-reboot-io-ignored. Supplementary, unregistered checks X01-X03 (./check X0n) '
+              'cover library code outside the twenty properties and write to supplementary/.'),
 }
 json.dump(m, open(os.path.join(HERE, 'MANIFEST.json'), 'w'), indent=1)
 print(len(checks), 'claimed;', len(na), 'not claimed')
